@@ -161,6 +161,65 @@ func finishRace(r *payload.SplitMix, cfg prog.Config) (all []*prog.Script, group
 	return all, [][]*prog.Script{all}, payload.Pick(r, finishPoints)
 }
 
+// flushParked: RPC 1 (manual flushing) has its explicit flush inside the transport, bytes already
+// delivered, when the peer ends the RPC (handler error or plain return); the flush then returns and the
+// client only closes its stream. RPC 2, a clean one, follows: how RPC 1 was ended by the peer must not
+// decide whether RPC 2 goes through.
+func flushParked(id string, seed uint64) runner.Result {
+	r := &payload.SplitMix{S: seed}
+	cfg := prog.GenConfig(r, true)
+	cfg.Net.Cap = -1
+	cfg.Client.WriterBufferSize, cfg.Server.WriterBufferSize = 1<<20, 1<<20
+	first := &prog.Script{Tag: 1, Client: []prog.Act{{Op: 's', Size: r.Intn(300)}, {Op: 'f'}}, Handler: []prog.Act{{Op: 'r'}}}
+	if r.Intn(2) == 0 {
+		first.Ret = &prog.ErrSpec{Code: 3}
+	}
+	second := prog.GenClean(r, 2, cfg)
+	x := prog.New(cfg, []*prog.Script{first, second})
+	defer x.Rig.Teardown()
+	gate := x.Rig.Pair.A.GateNextWrite(simnet.After)
+	op1 := rig.Go("rpc1", func() (interface{}, error) { x.RunClient(first); return nil, nil })
+	st, _ := census.QuiesceOr(gate.Reached(), rig.Watchdog)
+	hist := fmt.Sprintf("%s | flush-parked: rpc1 %s with its explicit flush inside the transport while the handler ends the rpc (err=%v); then %s", cfg.Desc, describe(first), first.Ret != nil, describe(second))
+	if st != "ready" {
+		gate.Release()
+		return runner.Inconcl(id, "the flush did not reach the transport: "+hist)
+	}
+	census.Quiesce(rig.Watchdog) // the handler has run and its end of the rpc has arrived
+	gate.Release()
+	census.Quiesce(rig.Watchdog)
+	if !op1.Returned() {
+		return runner.Inconcl(id, "rpc1 never returned: "+hist)
+	}
+	op2 := rig.Go("rpc2", func() (interface{}, error) { x.RunClient(second); return nil, nil })
+	w := rig.WaitAny(op2.Done())
+	_, snap := census.Quiesce(rig.Watchdog)
+	if w == "watchdog" {
+		return runner.Inconcl(id, "watchdog: "+hist)
+	}
+	if rig.IsClosed(x.Rig.Conn.Closed()) {
+		return runner.Hold(id, hist+" (connection closed)", false)
+	}
+	if !op2.Returned() {
+		return runner.Violation(id, "isolation:rpc-never-completes-after-the-peer-ended-the-previous-rpc-during-a-flush", hist+"\nrpc2 is blocked at quiescence on a connection that is not closed\n"+census.Dump(census.InDRPC(snap)))
+	}
+	l := x.Log(2)
+	evs := l.Snapshot()
+	var fails []string
+	for _, e := range evs {
+		if e.Err != nil && !(e.Op == "recv" && rig.Cat(e.Err) == "eof") {
+			fails = append(fails, fmt.Sprintf("rpc 2 was aborted by neither side and the connection never closed, yet %c:%s failed: %s", e.Side, e.Op, rig.ErrStr(e.Err)))
+		}
+	}
+	fails = append(fails, completeness(l, evs)...)
+	if len(fails) > 0 {
+		return runner.Violation(id, "isolation:clean-rpc-disturbed-after-flush-parked-rpc", hist+"\n"+strings.Join(fails, "\n"))
+	}
+	res := runner.Hold(id, hist, true)
+	res.Events = int64(len(evs))
+	return res
+}
+
 // reusedResponse: unary calls on one connection into one reused response variable; some responses are
 // zero-length messages. Each call must return the response to its own request: an empty response must
 // leave the variable empty, not holding what an earlier call put there.
@@ -573,6 +632,11 @@ func gen(tier string, seed uint64) []runner.Scenario {
 		i := i
 		id := fmt.Sprintf("abandoned-after-metadata/%d", i)
 		out = append(out, runner.Scenario{ID: id, Run: func() runner.Result { return scenario(id, payload.Hash(seed, 0xC02B, uint64(i)), "abandoned") }})
+	}
+	for i := 0; i < n/10; i++ {
+		i := i
+		id := fmt.Sprintf("flush-parked/%d", i)
+		out = append(out, runner.Scenario{ID: id, Run: func() runner.Result { return flushParked(id, payload.Hash(seed, 0xC02F, uint64(i))) }})
 	}
 	for i := 0; i < n/10; i++ {
 		i := i
